@@ -1,7 +1,467 @@
+(* C09 - proofs about the model of argument capture and display (UV.C09.Model). *)
 From Coq Require Import NArith ZArith List Bool Lia.
+From Coq Require Import ZifyBool ZifyN ZifyNat.
 Import ListNotations.
 Require Import UV.Gen.Consts UV.C09.Model.
 Local Open Scope N_scope.
+Ltac Zify.zify_post_hook ::= Z.div_mod_to_equations.
 
-Lemma ALIGN_0 : forall a, ALIGN 0 a = ((a - 1) / a) * a.
+(* ------------------------------------------------------------------ lists and bytes *)
+Lemma lenN_app : forall {A} (a b : list A), lenN (a ++ b) = lenN a + lenN b.
+Proof. intros. unfold lenN. rewrite app_length. lia. Qed.
+
+Lemma lenN_nil : forall {A}, lenN (@nil A) = 0.
 Proof. reflexivity. Qed.
+
+Lemma takeN_app_exact : forall {A} (a b : list A) n, n = lenN a -> takeN n (a ++ b) = a.
+Proof.
+  intros A a b n ->. unfold takeN, lenN. rewrite Nat2N.id.
+  rewrite firstn_app, Nat.sub_diag, firstn_all. simpl. apply app_nil_r.
+Qed.
+
+Lemma dropN_app_exact : forall {A} (a b : list A) n, n = lenN a -> dropN n (a ++ b) = b.
+Proof.
+  intros A a b n ->. unfold dropN, lenN. rewrite Nat2N.id.
+  rewrite skipn_app, Nat.sub_diag, skipn_all. reflexivity.
+Qed.
+
+Lemma length_le_bytes : forall n v, length (le_bytes n v) = n.
+Proof. induction n; intros; simpl; auto. Qed.
+
+Lemma of_le_le_bytes : forall n v, of_le (le_bytes n v) = v mod 256 ^ N.of_nat n.
+Proof.
+  induction n; intros v.
+  - simpl. rewrite N.mod_1_r. reflexivity.
+  - cbn [le_bytes of_le]. rewrite IHn.
+    rewrite Nat2N.inj_succ.
+    rewrite N.pow_succ_r'.
+    assert (H256 : 256 <> 0) by lia.
+    assert (Hp : 256 ^ N.of_nat n <> 0) by (apply N.pow_nonzero; lia).
+    rewrite N.mod_mul_r by assumption. reflexivity.
+Qed.
+
+Lemma ALIGN4_mod : forall x, ALIGN x 4 mod 4 = 0.
+Proof. intros. unfold ALIGN. apply N.mod_mul. lia. Qed.
+
+Lemma ALIGN4_ge : forall x, x <= ALIGN x 4 < x + 4.
+Proof. intros. unfold ALIGN. lia. Qed.
+
+Lemma ALIGN4_id : forall x, x mod 4 = 0 -> ALIGN x 4 = x.
+Proof. intros. unfold ALIGN. lia. Qed.
+
+Lemma ALIGN8_ge : forall x, x <= ALIGN x 8 < x + 8.
+Proof. intros. unfold ALIGN. lia. Qed.
+
+Lemma length_fit : forall n bg l, lenN (fit n bg l) = n.
+Proof.
+  intros. unfold fit, takeN, repN, lenN.
+  rewrite firstn_length, app_length, repeat_length. lia.
+Qed.
+
+Lemma fit_prefix : forall n bg l, lenN l <= n -> exists t, fit n bg l = l ++ t.
+Proof.
+  intros n bg l H. unfold fit, takeN, lenN in *.
+  rewrite firstn_app.
+  rewrite firstn_all2 by lia. eexists. reflexivity.
+Qed.
+
+(* ------------------------------------------------------------------ the string copy loop *)
+Definition nz (s : list N) : Prop := Forall (fun b => b <> 0) s.
+
+Lemma nthN_app_last : forall dst c, nthN (dst ++ [c]) (lenN dst) = c.
+Proof.
+  intros. unfold nthN, lenN. rewrite Nat2N.id.
+  rewrite app_nth2 by lia. rewrite Nat.sub_diag. reflexivity.
+Qed.
+
+Lemma copy_loop_prefix : forall s1 rest i bound dst len,
+  nz s1 -> lenN dst = i -> i + lenN s1 <= ARG_STR_MAX -> i + lenN s1 <= bound ->
+  copy_loop (s1 ++ rest) i bound dst len = copy_loop rest (i + lenN s1) bound (dst ++ s1) (len + lenN s1).
+Proof.
+  induction s1 as [|c s1 IH]; intros rest i bound dst len Hnz Hlen H98 Hb.
+  - simpl. rewrite lenN_nil, !N.add_0_r, app_nil_r. reflexivity.
+  - inversion Hnz as [|? ? Hc Hnz']; subst.
+    assert (Hl : lenN (c :: s1) = 1 + lenN s1) by (unfold lenN; simpl length; lia).
+    rewrite Hl in *.
+    cbn [app copy_loop].
+    destruct (bound <=? lenN dst) eqn:E1; [lia|].
+    destruct (lenN dst =? ARG_STR_MAX) eqn:E2; [lia|].
+    rewrite nthN_app_last.
+    destruct (c =? 0) eqn:E3; [lia|].
+    rewrite (IH rest (lenN dst + 1) bound (dst ++ [c]) (len + 1)); try assumption.
+    + rewrite <- app_assoc. cbn [app]. rewrite !N.add_assoc. reflexivity.
+    + rewrite lenN_app. unfold lenN at 2. simpl. lia.
+    + lia.
+    + lia.
+Qed.
+
+(* a string shorter than ARG_STR_MAX that fits is copied whole, with its NUL *)
+Lemma copy_loop_short : forall s junk bound,
+  nz s -> lenN s < ARG_STR_MAX -> lenN s < bound ->
+  copy_loop (s ++ 0 :: junk) 0 bound [] 0 = (s ++ [0], lenN s).
+Proof.
+  intros s junk bound Hnz H98 Hb.
+  rewrite copy_loop_prefix; try assumption; try reflexivity; try lia.
+  cbn [copy_loop app]. rewrite !N.add_0_l.
+  destruct (bound <=? lenN s) eqn:E1; [lia|].
+  destruct (lenN s =? ARG_STR_MAX) eqn:E2; [lia|].
+  rewrite nthN_app_last. reflexivity.
+Qed.
+
+(* the loop stops at i = ARG_STR_MAX whatever it finds there: a string of ARG_STR_MAX or more
+   characters becomes its first ARG_STR_MAX-3 characters and "..." *)
+Lemma copy_loop_long : forall s1 c junk bound,
+  nz s1 -> lenN s1 = ARG_STR_MAX -> ARG_STR_MAX < bound ->
+  copy_loop (s1 ++ c :: junk) 0 bound [] 0 = (takeN (ARG_STR_MAX - 3) s1 ++ [46; 46; 46; 0], ARG_STR_MAX).
+Proof.
+  intros s1 c junk bound Hnz H98 Hb.
+  rewrite copy_loop_prefix; try assumption; try reflexivity; try lia.
+  cbn [copy_loop app]. rewrite !N.add_0_l, H98.
+  destruct (bound <=? ARG_STR_MAX) eqn:E1; [lia|].
+  rewrite N.eqb_refl.
+  assert (Hd : dots ARG_STR_MAX (s1 ++ [c]) = takeN (ARG_STR_MAX - 3) s1 ++ [46; 46; 46; 0]).
+  { unfold dots, takeN. rewrite firstn_app.
+    replace (N.to_nat (ARG_STR_MAX - 3) - length s1)%nat with 0%nat
+      by (unfold lenN in H98; unfold ARG_STR_MAX in *; lia).
+    simpl firstn at 2. rewrite app_nil_r. reflexivity. }
+  rewrite Hd.
+  assert (Hn : nthN (takeN (ARG_STR_MAX - 3) s1 ++ [46; 46; 46; 0]) ARG_STR_MAX = 0).
+  { unfold nthN. rewrite app_nth2.
+    - unfold takeN. rewrite firstn_length.
+      unfold lenN in H98. unfold ARG_STR_MAX in *.
+      replace (N.to_nat 98 - Nat.min (N.to_nat (98 - 3)) (length s1))%nat with 3%nat by lia.
+      reflexivity.
+    - unfold takeN. rewrite firstn_length. unfold ARG_STR_MAX. lia. }
+  rewrite Hn. reflexivity.
+Qed.
+
+(* when the room left in the buffer ends first, the loop stops there without a NUL *)
+Lemma copy_loop_cut : forall s rest bound,
+  nz s -> lenN s = bound -> bound <= ARG_STR_MAX ->
+  copy_loop (s ++ rest) 0 bound [] 0 = (s, bound).
+Proof.
+  intros s rest bound Hnz Hl Hb.
+  rewrite copy_loop_prefix; try assumption; try reflexivity; try lia.
+  rewrite !N.add_0_l, Hl. simpl app.
+  destruct rest; cbn [copy_loop]; rewrite N.leb_refl; reflexivity.
+Qed.
+
+(* the length the loop reports never exceeds ARG_STR_MAX *)
+Lemma copy_loop_len : forall src i bound dst len,
+  lenN dst = i -> i <= ARG_STR_MAX -> len <= i -> snd (copy_loop src i bound dst len) <= ARG_STR_MAX.
+Proof.
+  induction src as [|c rest IH]; intros i bound dst len Hd Hi Hl.
+  - cbn [copy_loop]. destruct (bound <=? i); simpl; lia.
+  - cbn [copy_loop]. destruct (bound <=? i) eqn:E1; [simpl; lia|].
+    destruct (i =? ARG_STR_MAX) eqn:E2.
+    + apply N.eqb_eq in E2.
+      assert (Hn : nthN (dots i (dst ++ [c])) i = 0).
+      { unfold dots, nthN, takeN. rewrite app_nth2.
+        - rewrite firstn_length, app_length. simpl length.
+          unfold lenN in Hd. unfold ARG_STR_MAX in *.
+          replace (N.to_nat i - Nat.min (N.to_nat (i - 3)) (length dst + 1))%nat with 3%nat by lia.
+          reflexivity.
+        - rewrite firstn_length, app_length. simpl length.
+          unfold lenN in Hd. unfold ARG_STR_MAX in *. lia. }
+      rewrite Hn. simpl. lia.
+    + destruct (nthN (dst ++ [c]) i =? 0) eqn:E3; [simpl; lia|].
+      apply IH.
+      * rewrite lenN_app. unfold lenN at 2. simpl. lia.
+      * lia.
+      * lia.
+Qed.
+
+(* ------------------------------------------------------------------ one step of save_to_argbuf *)
+Definition relevant (is_ret : bool) (s : spec) : bool := Bool.eqb is_ret (s_idx s =? 0).
+
+(* what a step that stores something stores: for strings a 2-byte length, then ALIGN(len+2,4) bytes in all *)
+Definition chunk_ok (s : spec) (w : list N) (adv : N) : Prop :=
+  if is_strfmt (s_fmt s)
+  then exists len tl, w = le_bytes 2 len ++ tl /\ len < 65536 /\ adv = ALIGN (len + 2) 4
+  else adv = ALIGN (s_size s) 4.
+
+Lemma step_cases : forall fill inp is_ret st s,
+  let st' := step fill inp is_ret st s in
+  (st' = st /\ (m_stop st = true \/ relevant is_ret s = false)) \/ m_stop st' = true \/
+  (relevant is_ret s = true /\ exists val w adv, st' = emit fill st val w adv /\ chunk_ok s w adv).
+Proof.
+  intros fill inp is_ret st s. cbv zeta. unfold step.
+  destruct (m_stop st) eqn:Es; [left; split; [reflexivity|left; reflexivity]|].
+  fold (relevant is_ret s).
+  destruct (relevant is_ret s) eqn:Er; cbn [negb]; [|left; split; [reflexivity|right; reflexivity]].
+  destruct (fmt_eqb (s_fmt s) FStruct && (MAX_SIZE <? m_total st + s_size s)) eqn:Ep;
+    [right; left; reflexivity|].
+  match goal with |- context [match ?f with Some _ => _ | None => _ end] => destruct f as [[sw val]|] eqn:Ef end;
+    [|right; left; reflexivity].
+  right; right. split; [reflexivity|].
+  destruct (is_strfmt (s_fmt s)) eqn:Estr.
+  - match goal with |- context [if ?p =? 0 then _ else _] => destruct (p =? 0) eqn:Ep0 end.
+    + do 3 eexists. split; [reflexivity|].
+      unfold chunk_ok. rewrite Estr. exists 4, null_str. split; [reflexivity|]. split; [lia|reflexivity].
+    + match goal with |- context [copy_loop ?a ?b ?c ?d ?e] => destruct (copy_loop a b c d e) as [dst len] eqn:Ec end.
+      do 3 eexists. split; [reflexivity|].
+      unfold chunk_ok. rewrite Estr. exists len, dst. split; [reflexivity|].
+      split; [|reflexivity].
+      match type of Ec with copy_loop ?a ?b ?c ?d ?e = _ =>
+        pose proof (copy_loop_len a b c d e eq_refl) as Hl end.
+      rewrite Ec in Hl. simpl in Hl. unfold ARG_STR_MAX in Hl. lia.
+  - destruct (fmt_eqb (s_fmt s) FStruct) eqn:Est.
+    + do 3 eexists. split; [reflexivity|]. unfold chunk_ok. rewrite Estr. reflexivity.
+    + do 3 eexists. split; [reflexivity|]. unfold chunk_ok. rewrite Estr. reflexivity.
+Qed.
+
+(* ------------------------------------------------------------------ reader framing = writer framing *)
+Definition wf_spec (s : spec) : Prop := is_strfmt (s_fmt s) = true -> s_size s <> 0.
+
+Lemma emit_done : forall fill st val w adv,
+  m_done (emit fill st val w adv) = m_done st ++ fit adv fill (over w (m_ahead st)).
+Proof. reflexivity. Qed.
+
+Lemma emit_total : forall fill st val w adv, m_total (emit fill st val w adv) = m_total st + adv.
+Proof. reflexivity. Qed.
+
+Lemma fit_over_le2 : forall adv fill len tl ahead,
+  2 <= adv -> exists c', fit adv fill (over (le_bytes 2 len ++ tl) ahead) = le_bytes 2 len ++ c' /\ lenN c' = adv - 2.
+Proof.
+  intros adv fill len tl ahead H2.
+  pose proof (length_fit adv fill (over (le_bytes 2 len ++ tl) ahead)) as HL.
+  unfold over in *. rewrite <- !app_assoc in *.
+  remember (tl ++ skipn (length (le_bytes 2 len ++ tl)) ahead) as rest.
+  cbn [le_bytes app] in *.
+  unfold fit, takeN in *.
+  destruct (N.to_nat adv) as [|[|n]] eqn:En; try lia.
+  cbn [firstn app] in *. eexists. split; [reflexivity|].
+  unfold lenN in *. simpl length in HL. lia.
+Qed.
+
+(* the reader, given the bytes one storing step appended (and anything behind them), takes exactly them *)
+Lemma read_arg_chunk : forall s fill (ahead : list N) w adv acc rest,
+  wf_spec s -> chunk_ok s w adv -> lenN acc mod 4 = 0 ->
+  read_arg s acc (fit adv fill (over w ahead) ++ rest) = Some (acc ++ fit adv fill (over w ahead), rest).
+Proof.
+  intros s fill ahead w adv acc rest Hwf Hc Hacc.
+  unfold read_arg, chunk_ok in *.
+  destruct (is_strfmt (s_fmt s)) eqn:Estr.
+  - destruct Hc as (len & tl & -> & Hlen & ->).
+    destruct (s_size s =? 0) eqn:E0; [exfalso; apply Hwf; [exact Estr|lia]|].
+    pose proof (ALIGN4_ge (len + 2)) as HA.
+    destruct (fit_over_le2 (ALIGN (len + 2) 4) fill len tl ahead ltac:(lia)) as (c' & -> & Hc').
+    rewrite <- !app_assoc.
+    assert (H2 : lenN (le_bytes 2 len) = 2) by reflexivity.
+    assert (Hlt : (lenN (le_bytes 2 len ++ c' ++ rest) <? 2) = false).
+    { rewrite lenN_app, H2. lia. }
+    rewrite Hlt.
+    rewrite (takeN_app_exact (le_bytes 2 len) (c' ++ rest) 2) by (symmetry; exact H2).
+    rewrite (dropN_app_exact (le_bytes 2 len) (c' ++ rest) 2) by (symmetry; exact H2).
+    rewrite of_le_le_bytes. change (256 ^ N.of_nat 2) with 65536. rewrite (N.mod_small len 65536) by exact Hlen.
+    rewrite (lenN_app acc (le_bytes 2 len)), H2.
+    set (rem := (lenN acc + 2 + len) mod 4).
+    set (size' := if rem =? 0 then len else len + (4 - rem)).
+    assert (Hs : size' = lenN c').
+    { rewrite Hc'. unfold size', rem. unfold ALIGN in *. destruct ((lenN acc + 2 + len) mod 4 =? 0) eqn:Er; lia. }
+    rewrite Hs.
+    assert (Hlt2 : (lenN (c' ++ rest) <? lenN c') = false) by (rewrite lenN_app; lia).
+    rewrite Hlt2.
+    rewrite takeN_app_exact by reflexivity. rewrite dropN_app_exact by reflexivity.
+    reflexivity.
+  - subst adv.
+    destruct (s_size s =? 0) eqn:E0.
+    + apply N.eqb_eq in E0. rewrite E0. change (ALIGN 0 4) with 0.
+      unfold fit, takeN. simpl. rewrite app_nil_r. reflexivity.
+    + change (lenN rest <? 0) with false.
+      cbn [takeN dropN N.to_nat firstn skipn]. rewrite app_nil_r.
+      assert (lenN (fit (ALIGN (s_size s) 4) fill (over w ahead) ++ rest) <? 0 = false) as -> by lia.
+      set (c := fit (ALIGN (s_size s) 4) fill (over w ahead)).
+      assert (Hc : lenN c = ALIGN (s_size s) 4) by apply length_fit.
+      set (rem := (lenN acc + s_size s) mod 4).
+      set (size' := if rem =? 0 then s_size s else s_size s + (4 - rem)).
+      assert (Hs : size' = lenN c).
+      { rewrite Hc. unfold size', rem, ALIGN. destruct ((lenN acc + s_size s) mod 4 =? 0) eqn:Er; lia. }
+      rewrite Hs.
+      assert (Hlt2 : (lenN (c ++ rest) <? lenN c) = false) by (rewrite lenN_app; lia).
+      rewrite Hlt2.
+      rewrite takeN_app_exact by reflexivity. rewrite dropN_app_exact by reflexivity. reflexivity.
+Qed.
+
+Lemma step_stopped : forall fill inp is_ret st s, m_stop st = true -> step fill inp is_ret st s = st.
+Proof. intros. unfold step. rewrite H. reflexivity. Qed.
+
+Lemma fold_stopped : forall fill inp is_ret specs st,
+  m_stop st = true -> fold_left (step fill inp is_ret) specs st = st.
+Proof.
+  induction specs as [|s r IH]; intros st H; simpl; [reflexivity|].
+  rewrite step_stopped by exact H. apply IH. exact H.
+Qed.
+
+Lemma read_args_loop_frames : forall fill inp is_ret specs st acc rest,
+  Forall wf_spec specs ->
+  m_stop (fold_left (step fill inp is_ret) specs st) = false ->
+  lenN acc mod 4 = 0 ->
+  exists tail,
+    m_done (fold_left (step fill inp is_ret) specs st) = m_done st ++ tail /\
+    m_total (fold_left (step fill inp is_ret) specs st) = m_total st + lenN tail /\
+    lenN tail mod 4 = 0 /\
+    read_args_loop is_ret specs acc (tail ++ rest) = Some (acc ++ tail, rest).
+Proof.
+  induction specs as [|s r IH]; intros st acc rest Hwf Hstop Hacc.
+  - exists []. simpl. rewrite !app_nil_r, lenN_nil, N.add_0_r. auto.
+  - inversion Hwf as [|? ? Hs Hr]; subst.
+    cbn [fold_left] in *.
+    pose proof (step_cases fill inp is_ret st s) as Hc. cbv zeta in Hc.
+    destruct Hc as [(Heq & [Es | Hrel]) | [Hst | (Hrel & val & w & adv & Heq & Hck)]].
+    + rewrite Heq in Hstop. rewrite fold_stopped in Hstop by exact Es. congruence.
+    + rewrite Heq in *.
+      destruct (IH st acc rest Hr Hstop Hacc) as (tail & Hd & Ht & Hm & Hread).
+      exists tail. repeat split; try assumption.
+      cbn [read_args_loop]. unfold relevant in Hrel. rewrite Hrel. exact Hread.
+    + rewrite fold_stopped in Hstop by exact Hst. congruence.
+    + rewrite Heq in *.
+      assert (Hadv4 : adv mod 4 = 0).
+      { unfold chunk_ok in Hck. destruct (is_strfmt (s_fmt s)).
+        - destruct Hck as (? & ? & _ & _ & ->). apply ALIGN4_mod.
+        - subst adv. apply ALIGN4_mod. }
+      set (c := fit adv fill (over w (m_ahead st))) in *.
+      assert (Hlc : lenN c = adv) by apply length_fit.
+      destruct (IH (emit fill st val w adv) (acc ++ c) rest Hr Hstop) as (tail & Hd & Ht & Hm & Hread).
+      { rewrite lenN_app, Hlc. lia. }
+      exists (c ++ tail). rewrite emit_done in Hd. rewrite emit_total in Ht. fold c in Hd.
+      repeat split.
+      * rewrite Hd, app_assoc. reflexivity.
+      * rewrite Ht, lenN_app, Hlc. lia.
+      * rewrite lenN_app, Hlc. lia.
+      * cbn [read_args_loop]. unfold relevant in Hrel. rewrite Hrel. cbn [negb].
+        rewrite <- app_assoc.
+        unfold c. rewrite read_arg_chunk by assumption. fold c.
+        rewrite Hread, app_assoc. reflexivity.
+Qed.
+
+(* the loop is left by `break` only when the data is already too big (or the step is not modelled) *)
+Definition stop_inv (st : mst) : Prop := m_stop st = true -> m_unmodelled st = true \/ MAX_SIZE < m_total st.
+
+Lemma step_stop_inv : forall fill inp is_ret st s, stop_inv st -> stop_inv (step fill inp is_ret st s).
+Proof.
+  intros fill inp is_ret st s H. unfold step.
+  destruct (m_stop st) eqn:Es; [exact H|].
+  destruct (negb (Bool.eqb is_ret (s_idx s =? 0))); [exact H|].
+  destruct (fmt_eqb (s_fmt s) FStruct && (MAX_SIZE <? m_total st + s_size s)) eqn:Ep.
+  - intros _. right. cbn [m_total]. apply andb_prop in Ep. lia.
+  - match goal with |- context [match ?f with Some _ => _ | None => _ end] => destruct f as [[sw val]|] end.
+    + destruct (is_strfmt (s_fmt s)).
+      * match goal with |- context [if ?p =? 0 then _ else _] => destruct (p =? 0) end.
+        { intro Hc. discriminate Hc. }
+        { match goal with |- context [copy_loop ?a ?b ?c ?d ?e] => destruct (copy_loop a b c d e) end.
+          intro Hc. discriminate Hc. }
+      * destruct (fmt_eqb (s_fmt s) FStruct); intro Hc; discriminate Hc.
+    + intros _. left. reflexivity.
+Qed.
+
+Lemma run_stop_inv : forall fill inp is_ret specs, stop_inv (run fill inp is_ret specs).
+Proof.
+  intros. unfold run.
+  assert (H0 : stop_inv mst0) by (intro Hc; discriminate Hc).
+  revert H0. generalize mst0.
+  induction specs as [|s r IH]; intros st H; simpl; [exact H|].
+  apply IH. apply step_stop_inv. exact H.
+Qed.
+
+(* C09 framing: whenever save_to_argbuf accepts the data, read_task_args - which recomputes every
+   length from the stream and the spec sizes - consumes exactly the payload and its 8-byte padding,
+   for every spec list (any formats, sizes, addressing) and every input. *)
+Theorem framing : forall fill inp is_ret specs bg p rest,
+  Forall wf_spec specs ->
+  m_unmodelled (run fill inp is_ret specs) = false ->
+  payload (run fill inp is_ret specs) = Some p ->
+  read_args is_ret specs (fit (ALIGN (lenN p) 8) bg p ++ rest) = Some (p, rest).
+Proof.
+  intros fill inp is_ret specs bg p rest Hwf Hum Hp.
+  unfold payload in Hp. destruct (result (run fill inp is_ret specs)) as [n|] eqn:Er; [|discriminate].
+  injection Hp as Hp.
+  unfold result in Er. destruct (MAX_SIZE <? m_total (run fill inp is_ret specs)) eqn:Em; [discriminate|].
+  injection Er as Er.
+  assert (Hstop : m_stop (run fill inp is_ret specs) = false).
+  { destruct (m_stop (run fill inp is_ret specs)) eqn:Es; [|reflexivity].
+    destruct (run_stop_inv fill inp is_ret specs Es) as [H|H]; [congruence|lia]. }
+  unfold run in *.
+  destruct (fit_prefix (ALIGN (lenN p) 8) bg p) as (pad & Hpad).
+  { pose proof (ALIGN8_ge (lenN p)). lia. }
+  destruct (read_args_loop_frames fill inp is_ret specs mst0 [] (pad ++ rest) Hwf Hstop eq_refl)
+    as (tail & Hd & Ht & Hm & Hread).
+  cbn [m_done m_total mst0 app] in Hd, Ht.
+  assert (Hpt : p = tail).
+  { rewrite <- Hp, Hd. rewrite <- (app_nil_r tail) at 1.
+    apply takeN_app_exact. lia. }
+  rewrite <- Hpt in Hread. clear Hd Ht Hm Hpt tail.
+  unfold read_args. rewrite Hpad, <- app_assoc, Hread. cbn [app].
+  f_equal. f_equal.
+  pose proof (length_fit (ALIGN (lenN p) 8) bg p) as HL. rewrite Hpad, lenN_app in HL.
+  destruct (lenN p mod 8 =? 0) eqn:E8.
+  - assert (lenN pad = 0) by (unfold ALIGN in HL; lia).
+    destruct pad; [reflexivity|unfold lenN in *; simpl in *; lia].
+  - apply dropN_app_exact. unfold ALIGN in HL. lia.
+Qed.
+
+(* ------------------------------------------------------------------ the record stream *)
+Lemma rec_word_fields : forall ty more depth addr,
+  ty < 4 -> more < 2 -> depth < 1024 -> addr < 2 ^ 48 ->
+  let w := rec_word ty more depth addr in
+  w < 2 ^ 64 /\ w mod 4 = ty /\ (w / 4) mod 2 = more /\ (w / 8) mod 8 = RECORD_MAGIC /\
+  (w / 64) mod 1024 = depth /\ w / 65536 = addr.
+Proof.
+  intros ty more depth addr Ht Hm Hd Ha. cbv zeta. unfold rec_word, RECORD_MAGIC.
+  change (2 ^ 48) with 281474976710656 in Ha. change (2 ^ 64) with 18446744073709551616.
+  assert (Hmore : (if more =? 0 then 0 else 4) = 4 * more) by (destruct (more =? 0) eqn:E; lia).
+  rewrite Hmore.
+  rewrite N.mod_small by lia.
+  repeat split; lia.
+Qed.
+
+Lemma decode_header : forall k specs_of t ty more depth addr body,
+  t < 2 ^ 64 -> ty < 4 -> more < 2 -> depth < 1024 -> addr < 2 ^ 48 ->
+  decode_stream (S k) specs_of (le_bytes 8 t ++ le_bytes 8 (rec_word ty more depth addr) ++ body) =
+  if more =? 0 then
+    {| d_time := t; d_type := ty; d_depth := depth; d_addr := addr; d_args := None |} :: decode_stream k specs_of body
+  else match read_args (ty =? UFTRACE_EXIT) (specs_of addr) body with
+       | Some (data, rest') =>
+           {| d_time := t; d_type := ty; d_depth := depth; d_addr := addr; d_args := Some data |}
+             :: decode_stream k specs_of rest'
+       | None => []
+       end.
+Proof.
+  intros k specs_of t ty more depth addr body Ht Hty Hm Hd Ha.
+  destruct (rec_word_fields ty more depth addr Hty Hm Hd Ha) as (Hw & F1 & F2 & F3 & F4 & F5).
+  cbn [decode_stream].
+  assert (L8 : forall v, lenN (le_bytes 8 v) = 8) by reflexivity.
+  assert (Hlen : (lenN (le_bytes 8 t ++ le_bytes 8 (rec_word ty more depth addr) ++ body) <? 16) = false).
+  { rewrite !lenN_app, !L8. lia. }
+  rewrite Hlen.
+  rewrite (takeN_app_exact (le_bytes 8 t)) by reflexivity.
+  rewrite (dropN_app_exact (le_bytes 8 t)) by reflexivity.
+  rewrite (takeN_app_exact (le_bytes 8 (rec_word ty more depth addr))) by reflexivity.
+  rewrite !of_le_le_bytes. change (256 ^ N.of_nat 8) with (2 ^ 64).
+  rewrite (N.mod_small t) by exact Ht.
+  rewrite (N.mod_small (rec_word ty more depth addr)) by exact Hw.
+  rewrite F1, F2, F3, F4, F5, N.eqb_refl. cbn [negb].
+  assert (Hdrop : dropN 16 (le_bytes 8 t ++ le_bytes 8 (rec_word ty more depth addr) ++ body) = body).
+  { rewrite app_assoc. apply dropN_app_exact. rewrite lenN_app, !L8. reflexivity. }
+  rewrite Hdrop. reflexivity.
+Qed.
+
+(* C09 resync: a record with a payload of any size, as record_ret_stack lays it out (payload padded to
+   8 bytes), is decoded to that record and payload, and decoding continues exactly at the next record *)
+Theorem stream_resync : forall k specs_of bg fill inp t ty depth addr pl rest,
+  t < 2 ^ 64 -> ty < 4 -> depth < 1024 -> addr < 2 ^ 48 ->
+  Forall wf_spec (specs_of addr) ->
+  m_unmodelled (run fill inp (ty =? UFTRACE_EXIT) (specs_of addr)) = false ->
+  (pl = None \/ pl = payload (run fill inp (ty =? UFTRACE_EXIT) (specs_of addr))) ->
+  decode_stream (S k) specs_of (enc_rec bg t ty depth addr pl ++ rest) =
+  {| d_time := t; d_type := ty; d_depth := depth; d_addr := addr; d_args := pl |} :: decode_stream k specs_of rest.
+Proof.
+  intros k specs_of bg fill inp t ty depth addr pl rest Ht Hty Hd Ha Hwf Hum Hpl.
+  unfold enc_rec. rewrite <- !app_assoc.
+  destruct pl as [p|].
+  - rewrite decode_header by (try assumption; lia). cbn [N.eqb].
+    destruct Hpl as [Hpl|Hpl]; [discriminate|].
+    rewrite (framing fill inp (ty =? UFTRACE_EXIT) (specs_of addr) bg p rest Hwf Hum (eq_sym Hpl)).
+    reflexivity.
+  - rewrite decode_header by (try assumption; lia). reflexivity.
+Qed.
